@@ -15,13 +15,72 @@ import (
 
 // Pass-through declarations for the parts of the API the simulator does not interpret.
 type (
-	Locker    = stdsync.Locker
-	WaitGroup = stdsync.WaitGroup
-	Cond      = stdsync.Cond
-	Map       = stdsync.Map
+	Locker = stdsync.Locker
+	Map    = stdsync.Map
 )
 
-func NewCond(l Locker) *Cond { return stdsync.NewCond(l) }
+// WaitGroup is sync.WaitGroup under the simulator: the counter is modelled (Wait
+// is a blocking point the scheduler owns), then performed on the real one.
+type WaitGroup struct{ wg stdsync.WaitGroup }
+
+func (w *WaitGroup) Add(delta int) {
+	if t := core.Cur(); t != nil {
+		t.WGAdd(w, delta)
+	}
+	w.wg.Add(delta)
+}
+
+func (w *WaitGroup) Done() { w.Add(-1) }
+
+func (w *WaitGroup) Wait() {
+	if t := core.Cur(); t != nil {
+		t.WGWait(w) // granted when the modelled counter is zero: the real Wait below cannot block
+	}
+	w.wg.Wait()
+}
+
+// Cond is sync.Cond under the simulator. L is the modelled Mutex / RWMutex.
+type Cond struct {
+	L    Locker
+	real *stdsync.Cond
+}
+
+func NewCond(l Locker) *Cond { return &Cond{L: l, real: stdsync.NewCond(l)} }
+
+func (c *Cond) r() *stdsync.Cond {
+	if c.real == nil {
+		c.real = stdsync.NewCond(c.L)
+	}
+	return c.real
+}
+
+func (c *Cond) Wait() {
+	t := core.Cur()
+	if t == nil {
+		c.r().Wait()
+		return
+	}
+	t.CondEnqueue(c) // on the notify list before L is released, as in the runtime
+	c.L.Unlock()
+	t.CondWait(c)
+	c.L.Lock()
+}
+
+func (c *Cond) Signal() {
+	if t := core.Cur(); t != nil {
+		t.CondSignal(c)
+		return
+	}
+	c.r().Signal()
+}
+
+func (c *Cond) Broadcast() {
+	if t := core.Cur(); t != nil {
+		t.CondBroadcast(c)
+		return
+	}
+	c.r().Broadcast()
+}
 
 func OnceFunc(f func()) func() {
 	var once Once
